@@ -27,9 +27,11 @@ CROSS = {"C01-C": ["C08"], "C08-C": ["C02", "C06"], "C16-C": ["C04"], "C05-C": [
          # round 9 (Q, R)
          "C01-R": ["C04", "C10"], "C05-Q": ["C03"], "C03-Q": ["C05"], "C12-Q": ["C20"], "C20-R": ["C18"],
          # round 10 (S, T)
-         "C01-T": ["C10"], "C11-S": ["C13"], "C12-S": ["C13"], "C16-S": ["C04", "C10"], "C15-S": ["C19"], "C19-S": ["C15"]}
+         "C01-T": ["C10"], "C11-S": ["C13"], "C12-S": ["C13"], "C16-S": ["C04", "C10"], "C15-S": ["C19"], "C19-S": ["C15"],
+         # round 11 (U, V)
+         "C07-V": ["C04", "C19"], "C09-U": ["C08", "C01"], "C09-V": ["C08", "C01"], "C16-V": ["C04", "C10"], "C01-V": ["C08"]}
 THOROUGH_ONLY = {("C16-B", "C16"), ("C16-D", "C16"), ("C02-P", "C02")}   # C02-P: the NDEBUG build of the MPI leg
-NOT_EXPECTED = {"C06-N", "C09-N", "C09-P", "C06-T"}   # kept with meta.json "expected": "not detected" (BUILD_REPORT.md, rounds 7, 8, 10; C06-T repeats C06-N)
+NOT_EXPECTED = {"C06-N", "C09-N", "C09-P", "C06-T", "C06-U"}   # kept with meta.json "expected": "not detected" (BUILD_REPORT.md, rounds 7, 8, 10, 11; C06-T and C06-U repeat C06-N)
 # C19-E / C19-F change the refinement functions themselves (the subject of C08 / C07),
 # which C19 takes as given (it checks that each iteration uses the refinement of the previous result)
 OWN_BY_OTHER = {"C19-E": "C08", "C19-F": "C07", "C02-H": "C14", "C19-N": "C08", "C04-N": "C12", "C20-M": "C18",
